@@ -105,7 +105,8 @@ def run(tier):
     for i, nm in enumerate(names):
         r = res[i]
         has_reset = any(g == "reset" for g, _, _ in cs[nm])
-        prop = "C04" if has_reset else "C02"
+        # a circuit with resets shows the joint law of reset branches AND measurement outcomes: a deviation concerns both properties
+        prop = "C04,C02" if has_reset else "C02"
         if r["status"] != "ok" or len(r.get("shots", [])) != shots:
             viol.append({"property": prop, "what": "circuit '%s': %d-shot run ended with %s %s" % (nm, shots, r["status"], r.get("what", "")), "program": jobs[i]["src"]})
             continue
